@@ -380,3 +380,509 @@ Proof.
   split; [apply spec_query_holds|]. split; [apply spec_commands_holds|]. split; [apply spec_topics_holds|].
   split; [apply spec_annotations_holds|]. split; assumption.
 Qed.
+
+(* ---- the path clause, without assuming a clean base path ------------------------------------------------- *)
+(* path.Join(base, rel) for rel = parts joined by "/" is "/" + the non-empty segments of base + parts *)
+Lemma segments_nil : segments [] = [].
+Proof. reflexivity. Qed.
+
+Lemma path_join_segments : forall base parts, Forall (fun p => seg_ok p = true) parts ->
+  path_join base (join [47] parts) = [47] ++ join [47] (segments base ++ parts).
+Proof.
+  intros base parts HF. unfold path_join. destruct parts as [|p l].
+  - cbn [join]. now rewrite app_nil_r.
+  - pose proof (join_nonempty (p :: l) ltac:(discriminate) HF) as Hne.
+    destruct (join [47] (p :: l)) as [|c r] eqn:Ej; [congruence|]. rewrite <- Ej.
+    unfold clean_path. now rewrite segments_app_slash, (segments_join (p :: l)) by (discriminate || assumption).
+Qed.
+
+Lemma split_slash_all : forall (P : N -> bool) s cur,
+  forallb P s = true -> forallb P cur = true -> Forall (fun p => forallb P p = true) (split_slash cur s).
+Proof.
+  induction s as [|c s IH]; intros cur Hs Hc; cbn [split_slash].
+  - constructor; [|constructor]. rewrite forallb_forall in *. intros x Hx. apply Hc. now apply in_rev.
+  - cbn [forallb] in Hs. apply andb_true_iff in Hs. destruct Hs as [Hc0 Hs]. destruct (c =? 47).
+    + constructor; [|now apply IH]. rewrite forallb_forall in *. intros x Hx. apply Hc. now apply in_rev.
+    + apply IH; [assumption|]. cbn. now rewrite Hc0.
+Qed.
+
+Lemma split_slash_no_slash : forall s cur, no_slash cur = true ->
+  Forall (fun p => no_slash p = true) (split_slash cur s).
+Proof.
+  induction s as [|c s IH]; intros cur Hc; cbn [split_slash].
+  - constructor; [|constructor]. unfold no_slash in *. rewrite forallb_forall in *.
+    intros x Hx. apply Hc. now apply in_rev.
+  - destruct (c =? 47) eqn:E.
+    + constructor; [|now apply IH]. unfold no_slash in *. rewrite forallb_forall in *.
+      intros x Hx. apply Hc. now apply in_rev.
+    + apply IH. cbn. now rewrite E.
+Qed.
+
+Lemma segments_seg_ok : forall s, Forall (fun p => seg_ok p = true) (segments s).
+Proof.
+  intros s. unfold segments. apply Forall_forall. intros p Hp. apply filter_In in Hp.
+  destruct Hp as [Hin Hn]. unfold seg_ok. rewrite Hn. cbn.
+  pose proof (split_slash_no_slash s [] eq_refl) as H. rewrite Forall_forall in H. now apply H.
+Qed.
+
+(* a segment that is neither ":name" nor "{...}" *)
+Definition plain_seg (p : bytes) : bool :=
+  match p with c :: _ => negb (c =? 58) && negb (c =? 123) | [] => true end.
+
+Lemma brace_param_brace : forall x, brace_param (123 :: x ++ [125]) = [x].
+Proof. intros x. cbn [brace_param]. rewrite rev_app_distr. cbn. now rewrite rev_involutive. Qed.
+
+Lemma conv_plain : forall p, plain_seg p = true -> conv_part p = p /\ brace_param p = [].
+Proof.
+  intros [|c p] H; [split; reflexivity|]. cbn in H. apply andb_true_iff in H. destruct H as [H1 H2].
+  apply negb_true_iff in H1, H2. cbn [conv_part]. rewrite H1. split; [reflexivity|].
+  cbn [brace_param]. destruct c as [|q]; [reflexivity|].
+  destruct (N.eq_dec (N.pos q) 123) as [E|E]; [rewrite E in H2; discriminate|].
+  destruct q as [q|q|]; try reflexivity; repeat (destruct q as [q|q|]; try reflexivity); congruence.
+Qed.
+
+(* the rule path of "/" + segs: the plain segments stay, ":name" becomes "{snake name}" *)
+Definition seg_param_ok (p : bytes) : bool :=
+  match p with
+  | 58 :: n => no_slash (to_snake n)
+  | _ => plain_seg p
+  end.
+
+Lemma conv_part_no_slash : forall p, no_slash p = true -> seg_param_ok p = true -> no_slash (conv_part p) = true.
+Proof.
+  intros [|c p] Hn Hs; [reflexivity|]. cbn [conv_part]. destruct (c =? 58) eqn:E; [|exact Hn].
+  apply N.eqb_eq in E. subst c. cbn [seg_param_ok] in Hs. unfold no_slash in *. cbn [app forallb].
+  rewrite forallb_app, Hs. reflexivity.
+Qed.
+
+Lemma seg_params : forall p, seg_param_ok p = true ->
+  brace_param (conv_part p) = match p with 58 :: n => [to_snake n] | _ => [] end.
+Proof.
+  intros p H. destruct p as [|c n]; [reflexivity|]. destruct (N.eq_dec c 58) as [->|Hc].
+  - cbn [conv_part N.eqb Pos.eqb app]. apply (brace_param_brace (to_snake n)).
+  - assert (Hp : plain_seg (c :: n) = true).
+    { destruct c as [|q]; [exact H|]. destruct q as [q|q|]; try exact H;
+        repeat (destruct q as [q|q|]; try exact H); congruence. }
+    destruct (conv_plain _ Hp) as [-> ->].
+    destruct c as [|q]; [reflexivity|]. destruct q as [q|q|]; try reflexivity;
+      repeat (destruct q as [q|q|]; try reflexivity); congruence.
+Qed.
+
+Definition seg_params_of (p : bytes) : list bytes := match p with 58 :: n => [to_snake n] | _ => [] end.
+
+Theorem rule_params_join : forall segs, segs <> [] ->
+  Forall (fun p => seg_ok p = true) segs -> Forall (fun p => seg_param_ok p = true) segs ->
+  http_rule_path ([47] ++ join [47] segs) = join [47] ([] :: map conv_part segs)
+  /\ rule_params (http_rule_path ([47] ++ join [47] segs)) = flat_map seg_params_of segs.
+Proof.
+  intros segs Hne Hok Hp.
+  assert (Hns : Forall (fun p => no_slash p = true) segs).
+  { eapply Forall_impl; [|exact Hok]. intros p H. unfold seg_ok in H. apply andb_true_iff in H. tauto. }
+  assert (E : http_rule_path ([47] ++ join [47] segs) = join [47] ([] :: map conv_part segs)).
+  { unfold http_rule_path. change ([47] ++ join [47] segs) with ([] ++ 47 :: join [47] segs).
+    rewrite split_slash_app_slash. cbn [split_slash rev app]. now rewrite (split_join segs Hne Hns). }
+  split; [exact E|]. rewrite E. unfold rule_params. rewrite split_join.
+  - cbn [flat_map brace_param app]. clear E Hne Hok Hns. induction Hp as [|p l H _ IH]; [reflexivity|].
+    cbn [map flat_map]. rewrite (seg_params p H). fold (seg_params_of p). now rewrite IH.
+  - discriminate.
+  - constructor; [reflexivity|]. apply Forall_map. rewrite Forall_forall in *. intros p Hin.
+    apply conv_part_no_slash; auto.
+Qed.
+
+Lemma key_path_params : forall ks, flat_map seg_params_of (key_path ks) = map (fun u => to_snake (uf_name u)) ks.
+Proof. induction ks as [|u ks IH]; [reflexivity|]. cbn [key_path map flat_map seg_params_of app]. f_equal. exact IH. Qed.
+
+Lemma plain_no_params : forall l, Forall (fun p => plain_seg p = true) l -> flat_map seg_params_of l = [].
+Proof.
+  induction 1 as [|p l H _ IH]; [reflexivity|]. cbn [flat_map]. rewrite IH, app_nil_r.
+  destruct p as [|c n]; [reflexivity|]. cbn in H. apply andb_true_iff in H. destruct H as [H _].
+  apply negb_true_iff in H. destruct c as [|q]; [reflexivity|]. destruct q as [q|q|]; try reflexivity;
+    repeat (destruct q as [q|q|]; try reflexivity); discriminate.
+Qed.
+
+Lemma plain_seg_param_ok : forall p, plain_seg p = true -> seg_param_ok p = true.
+Proof.
+  intros [|c n] H; [reflexivity|]. pose proof H as H'. cbn in H. apply andb_true_iff in H. destruct H as [H _].
+  apply negb_true_iff in H. destruct c as [|q]; [exact H'|]. destruct q as [q|q|]; try exact H';
+    repeat (destruct q as [q|q|]; try exact H'); discriminate.
+Qed.
+
+(* the hypotheses: every non-empty segment of the base path is plain; key names and their
+   snake forms contain no '/' *)
+Definition key_seg_ok (u : ufield) : bool := no_slash (uf_name u) && no_slash (to_snake (uf_name u)).
+
+Theorem query_paths_params : forall e,
+  Forall (fun p => plain_seg p = true) (segments (query_base e)) ->
+  Forall (fun u => key_seg_ok u = true) (get_keys e) ->
+  rule_params (nth 0 (query_paths e) []) = map (fun u => to_snake (uf_name u)) (get_keys e)
+  /\ rule_params (nth 2 (query_paths e) []) = map (fun u => to_snake (uf_name u)) (get_keys e)
+  /\ nth 2 (query_paths e) [] = nth 0 (query_paths e) [] ++ bs "/events".
+Proof.
+  intros e Hb Hk. unfold query_paths. cbn [nth].
+  assert (Hks : Forall (fun p => seg_ok p = true) (key_path (get_keys e))).
+  { apply key_path_seg_ok. eapply Forall_impl; [|exact Hk]. intros u H. unfold key_seg_ok in H.
+    apply andb_true_iff in H. tauto. }
+  assert (Hkp : Forall (fun p => seg_param_ok p = true) (key_path (get_keys e))).
+  { unfold key_path. apply Forall_map. eapply Forall_impl; [|exact Hk]. intros u H. unfold key_seg_ok in H.
+    apply andb_true_iff in H. cbn [app seg_param_ok]. tauto. }
+  assert (Hev : seg_ok (bs "events") = true /\ seg_param_ok (bs "events") = true) by (split; reflexivity).
+  assert (Hsb : segments (query_base e) <> []).
+  { unfold query_base. rewrite app_assoc. change (bs "/q") with ([47] ++ bs "q").
+    rewrite segments_app_slash. intros H. apply app_eq_nil in H. destruct H as [_ H]. discriminate. }
+  rewrite (path_join_segments _ _ Hks).
+  rewrite (path_join_segments (query_base e) (key_path (get_keys e) ++ [bs "events"])).
+  2:{ apply Forall_app. split; [assumption|]. constructor; [tauto|constructor]. }
+  set (sb := segments (query_base e)) in *. set (kp := key_path (get_keys e)) in *.
+  assert (Ok1 : Forall (fun p => seg_ok p = true) (sb ++ kp)).
+  { apply Forall_app. split; [apply segments_seg_ok|assumption]. }
+  assert (Pk1 : Forall (fun p => seg_param_ok p = true) (sb ++ kp)).
+  { apply Forall_app. split; [|assumption]. eapply Forall_impl; [|exact Hb]. apply plain_seg_param_ok. }
+  assert (Ne1 : sb ++ kp <> []) by (intros H; apply app_eq_nil in H; tauto).
+  destruct (rule_params_join (sb ++ kp) Ne1 Ok1 Pk1) as [E1 P1].
+  assert (Ok2 : Forall (fun p => seg_ok p = true) (sb ++ kp ++ [bs "events"])).
+  { rewrite app_assoc. apply Forall_app. split; [assumption|]. constructor; [tauto|constructor]. }
+  assert (Pk2 : Forall (fun p => seg_param_ok p = true) (sb ++ kp ++ [bs "events"])).
+  { rewrite app_assoc. apply Forall_app. split; [assumption|]. constructor; [tauto|constructor]. }
+  assert (Ne2 : sb ++ kp ++ [bs "events"] <> []) by (intros H; apply app_eq_nil in H; tauto).
+  destruct (rule_params_join _ Ne2 Ok2 Pk2) as [E2 P2].
+  split; [|split].
+  - rewrite P1, flat_map_app, (plain_no_params sb Hb). cbn [app]. apply key_path_params.
+  - rewrite P2, !flat_map_app, (plain_no_params sb Hb). unfold kp. rewrite key_path_params. cbn. now rewrite app_nil_r.
+  - rewrite E1, E2. rewrite app_assoc, map_app.
+    change ([] :: map conv_part (sb ++ kp) ++ map conv_part [bs "events"])
+      with (([] :: map conv_part (sb ++ kp)) ++ [bs "events"]).
+    rewrite join_app by discriminate. reflexivity.
+Qed.
+
+(* ---- what [in_quantifier] gives ---------------------------------------------------------------------------- *)
+Lemma in_quantifier_parts : forall e, in_quantifier e = true ->
+  name_ok (e_name e) = true /\ pkg_ok (e_pkg e) = true
+  /\ (is_nil (e_base_url e) || (rel_path_ok (e_base_url e) && is_nil (colon_params (e_base_url e)))) = true
+  /\ e_keys e <> [] /\ fields_wf (map k_def (e_keys e)) = true
+  /\ e_status e <> [].
+Proof.
+  intros e H. unfold in_quantifier in H.
+  repeat match type of H with
+         | (_ && _) = true => apply andb_true_iff in H; let H' := fresh "Q" in destruct H as [H H']
+         end.
+  split; [assumption|]. split; [assumption|]. split; [assumption|].
+  split; [intros E; rewrite E in *; discriminate|]. split; [assumption|].
+  intros E; rewrite E in *; discriminate.
+Qed.
+
+Lemma forallb_plain_seg : forall (R : N -> bool) p,
+  (forall c, R c = true -> (c =? 58) = false /\ (c =? 123) = false) ->
+  forallb R p = true -> plain_seg p = true.
+Proof.
+  intros R [|c p] HR H; [reflexivity|]. cbn in H. apply andb_true_iff in H. destruct H as [H _].
+  destruct (HR c H) as [H1 H2]. cbn. now rewrite H1, H2.
+Qed.
+
+Lemma plain_char_safe : forall c, plain c = true -> (c =? 58) = false /\ (c =? 123) = false.
+Proof.
+  intros c H. unfold plain, is_cap, is_low, is_num in H.
+  split; apply N.eqb_neq; intros ->; cbn in H; discriminate.
+Qed.
+
+Lemma Forall_filter : forall {A} (P : A -> Prop) (f : A -> bool) l, Forall P l -> Forall P (filter f l).
+Proof.
+  intros A P f l H. apply Forall_forall. intros x Hx. apply filter_In in Hx. rewrite Forall_forall in H. now apply H.
+Qed.
+
+Lemma flat_map_nil_inv : forall {A B} (f : A -> list B) l, flat_map f l = [] -> forall x, In x l -> f x = [].
+Proof.
+  induction l as [|a l IH]; intros H x Hx; [destruct Hx|]. cbn in H. apply app_eq_nil in H. destruct H as [H1 H2].
+  destruct Hx as [<-|Hx]; [exact H1|now apply IH].
+Qed.
+
+Lemma default_base_segments : forall e, name_ok (e_name e) = true -> pkg_ok (e_pkg e) = true ->
+  Forall (fun p => plain_seg p = true)
+    (split_slash [] (map (fun c => if c =? 46 then 47 else c) (e_pkg e) ++ [47] ++ snake_name e)).
+Proof.
+  intros e Hn Hp. cbn [app]. rewrite split_slash_app_slash. apply Forall_app. split.
+  - unfold pkg_ok in Hp. apply andb_true_iff in Hp. destruct Hp as [Hp _].
+    set (R := fun c => is_low c || is_num c || (c =? 95) || (c =? 47)).
+    assert (HR : forall c, R c = true -> (c =? 58) = false /\ (c =? 123) = false).
+    { intros c H. unfold R, is_low, is_num in H. split; apply N.eqb_neq; intros ->; cbn in H; discriminate. }
+    assert (Hall : forallb R (map (fun c => if c =? 46 then 47 else c) (e_pkg e)) = true).
+    { rewrite forallb_forall in *. intros c Hc. apply in_map_iff in Hc. destruct Hc as [d [<- Hd]].
+      specialize (Hp d Hd). unfold pkg_char in Hp. unfold R. destruct (d =? 46) eqn:E; [reflexivity|].
+      apply orb_true_iff in Hp. destruct Hp as [Hp|Hp]; [rewrite Hp; reflexivity|congruence]. }
+    pose proof (split_slash_all R _ [] Hall eq_refl) as H. eapply Forall_impl; [|exact H].
+    intros p. now apply forallb_plain_seg.
+  - unfold name_ok in Hn. apply andb_true_iff in Hn. destruct Hn as [Hi _].
+    pose proof (to_snake_ident _ Hi) as Hs. unfold snake_name.
+    pose proof (split_slash_all plain (to_snake (e_name e)) [] Hs eq_refl) as H.
+    eapply Forall_impl; [|exact H]. intros p. apply forallb_plain_seg. apply plain_char_safe.
+Qed.
+
+Lemma override_base_segments : forall p, rel_path_ok p = true -> colon_params p = [] ->
+  Forall (fun s => plain_seg s = true) (split_slash [] p).
+Proof.
+  intros p Hr Hc. unfold rel_path_ok in Hr. unfold colon_params in Hc.
+  pose proof (split_slash_all _ p [] Hr eq_refl) as H. apply Forall_forall. intros s Hs.
+  rewrite Forall_forall in H. specialize (H s Hs). pose proof (flat_map_nil_inv _ _ Hc s Hs) as Hn.
+  destruct s as [|c n]; [reflexivity|]. cbn in H. apply andb_true_iff in H. destruct H as [H _].
+  cbn. destruct (N.eq_dec c 58) as [->|Hne]; [discriminate|].
+  assert (E1 : (c =? 58) = false) by now apply N.eqb_neq. rewrite E1. cbn.
+  apply negb_true_iff. apply N.eqb_neq. intros ->. unfold alnum, is_cap, is_low, is_num in H. cbn in H. discriminate.
+Qed.
+
+Theorem in_quantifier_base_plain : forall e, in_quantifier e = true ->
+  Forall (fun p => plain_seg p = true) (segments (query_base e)).
+Proof.
+  intros e H. destruct (in_quantifier_parts e H) as [Hn [Hp [Hb _]]].
+  unfold segments. apply Forall_filter. unfold query_base. cbn [app].
+  change (47 :: base_url e ++ bs "/q") with ([] ++ 47 :: (base_url e ++ 47 :: bs "q")).
+  rewrite split_slash_app_slash, split_slash_app_slash. apply Forall_app. split; [repeat constructor|].
+  apply Forall_app. split; [|repeat constructor].
+  unfold base_url. destruct (e_base_url e) as [|c r] eqn:E.
+  - now apply default_base_segments.
+  - cbn [is_nil orb] in Hb. apply andb_true_iff in Hb. destruct Hb as [H1 H2].
+    apply override_base_segments; [exact H1|]. destruct (colon_params (c :: r)); [reflexivity|discriminate].
+Qed.
+
+Theorem in_quantifier_key_segs : forall e, in_quantifier e = true ->
+  Forall (fun u => key_seg_ok u = true) (get_keys e).
+Proof.
+  intros e H. destruct (in_quantifier_parts e H) as [_ [_ [_ [_ [Hk _]]]]].
+  unfold fields_wf in Hk. apply andb_true_iff in Hk. destruct Hk as [Hk _].
+  apply Forall_forall. intros u Hu. apply get_keys_incl in Hu. rewrite forallb_forall in Hk.
+  specialize (Hk u Hu). unfold ufield_wf in Hk. apply andb_true_iff in Hk. destruct Hk as [Hk _].
+  unfold name_ok in Hk. apply andb_true_iff in Hk. destruct Hk as [Hi _].
+  unfold key_seg_ok. destruct (ident_no_colon_slash _ Hi) as [_ ->].
+  destruct (ident_no_colon_slash _ (to_snake_ident _ Hi)) as [_ ->]. reflexivity.
+Qed.
+
+Theorem spec_query_paths_holds : forall e fl, in_quantifier e = true -> spec_query_paths e (expand_with e fl).
+Proof.
+  intros e fl H s g l v Hs Hq Hm. rewrite svcs_in_expand_1 in Hs.
+  destruct (query_svc_shape e) as [g' [l' [v' [Hshape [_ [_ [_ [_ [_ [Hpaths _]]]]]]]]]].
+  destruct Hs as [<-|Hs].
+  2:{ apply in_map_iff in Hs. destruct Hs as [c [<- _]]. discriminate. }
+  rewrite Hshape in Hm. cbn [sv_methods] in Hm. inversion Hm; subst g' l' v'.
+  destruct (query_paths_params e (in_quantifier_base_plain e H) (in_quantifier_key_segs e H)) as [P0 [P2 E]].
+  unfold query_paths in *. cbn [map] in Hpaths. inversion Hpaths as [[Eg El Ev]].
+  cbn [nth] in P0, P2, E. rewrite Eg, Ev.
+  assert (Hn : map (fun u => to_snake (uf_name u)) (get_keys e) = path_key_names e).
+  { unfold get_keys, path_key_names. rewrite map_map. reflexivity. }
+  rewrite <- Hn. auto.
+Qed.
+
+(* ---- State and Event as objects ------------------------------------------------------------------------------ *)
+Lemma existsb_bytes_In : forall x l, existsb (bytes_eqb x) l = true <-> In x l.
+Proof.
+  intros x l. rewrite existsb_exists. split.
+  - intros [y [Hy He]]. apply bytes_eqb_eq in He. now subst.
+  - intros H. exists x. split; [assumption|apply bytes_eqb_refl].
+Qed.
+
+Lemma nodup_bytes_NoDup : forall l, nodup_bytes l = true <-> NoDup l.
+Proof.
+  induction l as [|x l IH]; cbn [nodup_bytes]; split; intros H; try constructor; try reflexivity.
+  - apply andb_true_iff in H. destruct H as [H1 H2]. apply negb_true_iff in H1.
+    intros Hin. apply existsb_bytes_In in Hin. congruence.
+  - apply andb_true_iff in H. destruct H as [_ H2]. now apply IH.
+  - inversion H as [|? ? Hn Hd]; subst. apply andb_true_iff. split; [|now apply IH].
+    apply negb_true_iff. destruct (existsb (bytes_eqb x) l) eqn:E; [|reflexivity].
+    apply existsb_bytes_In in E. contradiction.
+Qed.
+
+Lemma link_ok_file0 : forall cs, link_ok cs = true -> NoDup (file_scope 0 cs).
+Proof.
+  intros cs H. unfold link_ok, scopes in H. cbn [app forallb] in H. apply andb_true_iff in H.
+  destruct H as [H _]. now apply nodup_bytes_NoDup.
+Qed.
+
+Lemma NoDup_app_r : forall {A} (a b : list A), NoDup (a ++ b) -> NoDup b.
+Proof. induction a as [|x a IH]; intros b H; [assumption|]. inversion H; subst. now apply IH. Qed.
+
+Definition keys_sel (n : bytes) (c : component) : list bytes :=
+  match c with
+  | CMsg 0 k => if bytes_eqb (m_name k) n then map f_json (m_fields k) else []
+  | _ => []
+  end.
+
+Lemma file_scope_cons : forall c r, file_scope 0 (c :: r) = file_scope 0 [c] ++ file_scope 0 r.
+Proof. intros c r. unfold file_scope. cbn [flat_map]. now rewrite app_nil_r. Qed.
+
+Lemma keys_sel_absent : forall n r, ~ In n (file_scope 0 r) -> flat_map (keys_sel n) r = [].
+Proof.
+  induction r as [|c r IH]; intros H; [reflexivity|]. rewrite file_scope_cons in H.
+  cbn [flat_map]. rewrite IH by (intros Hin; apply H; apply in_or_app; now right).
+  rewrite app_nil_r. destruct c as [f k|en vs|f s]; try reflexivity. destruct f as [|q]; [|reflexivity].
+  cbn [keys_sel]. destruct (bytes_eqb (m_name k) n) eqn:E; [|reflexivity]. apply bytes_eqb_eq in E.
+  exfalso. apply H. apply in_or_app. left. cbn. left. exact E.
+Qed.
+
+Lemma keys_sel_unique : forall cs k, NoDup (file_scope 0 cs) -> In (CMsg 0 k) cs ->
+  flat_map (keys_sel (m_name k)) cs = map f_json (m_fields k).
+Proof.
+  induction cs as [|c r IH]; intros k Hnd Hin; [destruct Hin|]. rewrite file_scope_cons in Hnd.
+  cbn [flat_map]. destruct Hin as [->|Hin].
+  - cbn [keys_sel]. rewrite bytes_eqb_refl. rewrite keys_sel_absent; [apply app_nil_r|].
+    cbn in Hnd. inversion Hnd; assumption.
+  - rewrite (IH k); [|eapply NoDup_app_r; exact Hnd|assumption].
+    assert (Hk : In (m_name k) (file_scope 0 r)).
+    { unfold file_scope. apply in_flat_map. exists (CMsg 0 k). split; [assumption|]. cbn. now left. }
+    destruct c as [f k'|en vs|f s]; try reflexivity. destruct f as [|q]; [|reflexivity].
+    cbn [keys_sel]. destruct (bytes_eqb (m_name k') (m_name k)) eqn:E; [|reflexivity].
+    apply bytes_eqb_eq in E. exfalso. cbn in Hnd. inversion Hnd as [|? ? Hn _]; subst. apply Hn. now rewrite E.
+Qed.
+
+Lemma msg_unique : forall cs a b, NoDup (file_scope 0 cs) -> In (CMsg 0 a) cs -> In (CMsg 0 b) cs ->
+  m_name a = m_name b -> a = b.
+Proof.
+  induction cs as [|c r IH]; intros a b Hnd Ha Hb He; [destruct Ha|]. rewrite file_scope_cons in Hnd.
+  assert (Hin : forall k, In (CMsg 0 k) r -> In (m_name k) (file_scope 0 r)).
+  { intros k Hk. unfold file_scope. apply in_flat_map. exists (CMsg 0 k). split; [assumption|]. cbn. now left. }
+  destruct Ha as [->|Ha], Hb as [Hb|Hb].
+  - now inversion Hb.
+  - exfalso. cbn in Hnd. inversion Hnd as [|? ? Hn _]; subst. apply Hn. rewrite He. now apply Hin.
+  - subst c. exfalso. cbn in Hnd. inversion Hnd as [|? ? Hn _]; subst. apply Hn. rewrite <- He. now apply Hin.
+  - apply (IH a b); try assumption. eapply NoDup_app_r; exact Hnd.
+Qed.
+
+Lemma json_props_sel : forall cs m,
+  json_props cs m = flat_map (fun f =>
+    if f_flatten f then match f_type f with TObject [] n => flat_map (keys_sel n) cs | _ => [f_json f] end
+    else [f_json f]) (m_fields m).
+Proof. reflexivity. Qed.
+
+(* the keys' own names are distinct and none is a property name of State / Event *)
+Definition keys_clear (e : entity) : Prop :=
+  NoDup (map key_name (e_keys e))
+  /\ forall k, In k (e_keys e) -> ~ In (key_name k) [bs "metadata"; bs "data"; bs "status"; bs "event"].
+
+Lemma NoDup_app_intro : forall {A} (a b : list A), NoDup a -> NoDup b -> (forall x, In x a -> ~ In x b) -> NoDup (a ++ b).
+Proof.
+  induction a as [|x a IH]; intros b Ha Hb Hd; [assumption|]. inversion Ha; subst. cbn. constructor.
+  - intros Hin. apply in_app_or in Hin. destruct Hin as [Hin|Hin]; [contradiction|]. apply (Hd x); [now left|assumption].
+  - apply IH; try assumption. intros y Hy. apply Hd. now right.
+Qed.
+
+Theorem spec_objects_holds : forall e fl, link_ok (expand_with e fl) = true -> keys_clear e ->
+  spec_objects e (expand_with e fl).
+Proof.
+  intros e fl Hl [Hnd Hres] m Hm Hname. pose proof (link_ok_file0 _ Hl) as Hf.
+  assert (Hk : In (CMsg 0 (keys_msg e)) (expand_with e fl)) by (apply in_expand_head; cbn; auto).
+  assert (Ekeys : flat_map (keys_sel (sp_name e "Keys")) (expand_with e fl) = map key_name (e_keys e)).
+  { rewrite <- cn_keys. change (component_name e (bs "Keys")) with (m_name (keys_msg e)).
+    rewrite (keys_sel_unique _ _ Hf Hk). cbn [keys_msg m_fields]. rewrite map_map. apply map_ext.
+    intros k. apply of_ufield_key. }
+  assert (Hnot : forall n, In n [bs "metadata"; bs "data"; bs "status"; bs "event"] -> ~ In n (map key_name (e_keys e))).
+  { intros n Hn Hin. apply in_map_iff in Hin. destruct Hin as [k [<- Hin]]. exact (Hres k Hin Hn). }
+  destruct Hname as [Hname|Hname].
+  - assert (m = state_msg e fl).
+    { apply (msg_unique _ _ _ Hf Hm); [apply in_expand_head; cbn; auto|]. cbn [state_msg m_name]. now rewrite cn_state. }
+    subst m. rewrite json_props_sel. cbn [state_msg m_fields flat_map plain_field mkF f_flatten f_type f_json local_obj].
+    rewrite cn_keys, Ekeys, app_nil_r. cbn [app]. constructor.
+    + intros Hin. apply in_app_or in Hin. destruct Hin as [Hin|Hin].
+      * apply (Hnot (bs "metadata")); cbn; auto.
+      * cbn in Hin. destruct Hin as [Hin|[Hin|[]]]; discriminate.
+    + apply NoDup_app_intro; [assumption|repeat constructor; cbn; intuition discriminate|].
+      intros x Hx Hin. cbn in Hin. destruct Hin as [<-|[<-|[]]]; [apply (Hnot (bs "data"))|apply (Hnot (bs "status"))]; cbn; auto.
+  - assert (m = event_msg e).
+    { apply (msg_unique _ _ _ Hf Hm); [apply in_expand_head; cbn; auto 10|]. cbn [event_msg m_name]. now rewrite cn_event. }
+    subst m. rewrite json_props_sel. cbn [event_msg m_fields flat_map plain_field mkF f_flatten f_type f_json local_obj].
+    rewrite cn_keys, Ekeys, app_nil_r. cbn [app]. constructor.
+    + intros Hin. apply in_app_or in Hin. destruct Hin as [Hin|Hin].
+      * apply (Hnot (bs "metadata")); cbn; auto.
+      * cbn in Hin. destruct Hin as [Hin|[]]; discriminate.
+    + apply NoDup_app_intro; [assumption|repeat constructor; cbn; intuition discriminate|].
+      intros x Hx Hin. cbn in Hin. destruct Hin as [<-|[]]. apply (Hnot (bs "event")); cbn; auto.
+Qed.
+
+Lemma in_quantifier_keys_nodup : forall e, in_quantifier e = true -> NoDup (map key_name (e_keys e)).
+Proof.
+  intros e H. destruct (in_quantifier_parts e H) as [_ [_ [_ [_ [Hk _]]]]].
+  unfold fields_wf in Hk. apply andb_true_iff in Hk. destruct Hk as [_ Hk].
+  apply nodup_bytes_NoDup in Hk. rewrite <- (map_map uf_name to_snake) in Hk. apply NoDup_map_inv in Hk.
+  change (map key_name (e_keys e)) with (map (fun k => uf_name (k_def k)) (e_keys e)).
+  rewrite <- (map_map k_def uf_name). exact Hk.
+Qed.
+
+Theorem keys_clear_holds : forall e, in_quantifier e = true -> reserved_free e = true -> keys_clear e.
+Proof.
+  intros e Hq Hr. split; [now apply in_quantifier_keys_nodup|]. intros k Hk Hin.
+  unfold reserved_free in Hr.
+  repeat match type of Hr with
+         | (_ && _) = true => apply andb_true_iff in Hr; let H' := fresh "R" in destruct Hr as [Hr H']
+         end.
+  rewrite forallb_forall in R1. specialize (R1 k Hk). apply negb_true_iff in R1.
+  apply existsb_bytes_In in Hin. congruence.
+Qed.
+
+(* ---- the full statement, its refutation, and what holds -------------------------------------------------------- *)
+Definition C17_full_statement_def : Prop :=
+  forall e, in_quantifier e = true -> exists cs, compile e = Ok cs /\ C17_spec e cs.
+
+Definition mk_min (key : string) : entity :=
+  mkE (bs "foo.v1") (bs "Foo") [] [mkK (mkU (bs key) (KKey true None None) false false) false]
+      [] [bs "ACTIVE"] [] [] [] None [].
+
+(* a primary key named page: inside the quantifier, not linkable *)
+Theorem reserved_key_refuted :
+  in_quantifier (mk_min "page") = true /\ compile (mk_min "page") = Err "symbol already defined"
+  /\ in_quantifier (mk_min "query") = true /\ compile (mk_min "query") = Err "symbol already defined".
+Proof. repeat split; vm_compute; reflexivity. Qed.
+
+Definition upsert_sample : entity :=
+  mkE (bs "foo.v1") (bs "Foo") [] [mkK (mkU (bs "fooId") (KKey true None None) false false) false]
+      [] [bs "ACTIVE"] [] [] [mkS [] [mkU (bs "upsert") (KScalar 9 (bs "string")) false false]] None [].
+Theorem summary_upsert_refuted :
+  in_quantifier upsert_sample = true /\ compile upsert_sample = Err "symbol already defined".
+Proof. split; vm_compute; reflexivity. Qed.
+
+Definition type_event_sample : entity :=
+  mkE (bs "foo.v1") (bs "Foo") [] [mkK (mkU (bs "fooId") (KKey true None None) false false) false]
+      [] [bs "ACTIVE"] [mkEv (bs "Type") []] [] [] None [].
+Theorem event_type_refuted :
+  in_quantifier type_event_sample = true /\ compile type_event_sample = Err "symbol already defined".
+Proof. split; vm_compute; reflexivity. Qed.
+
+(* a key named status: compiles, and State has two JSON properties "status" *)
+Theorem state_property_clash_refuted :
+  exists cs m, in_quantifier (mk_min "status") = true /\ compile (mk_min "status") = Ok cs
+    /\ has_msg cs 0 m /\ m_name m = sp_name (mk_min "status") "State"
+    /\ json_props cs m = [bs "metadata"; bs "status"; bs "data"; bs "status"]
+    /\ ~ NoDup (json_props cs m).
+Proof.
+  eexists. eexists. split; [vm_compute; reflexivity|]. split; [vm_compute; reflexivity|].
+  split; [unfold has_msg; do 3 right; left; reflexivity|]. split; [vm_compute; reflexivity|].
+  split; [vm_compute; reflexivity|]. intros H. vm_compute in H.
+  inversion H as [|? ? H1 H2]; subst. inversion H2 as [|? ? H3 _]; subst. apply H3. right. left. reflexivity.
+Qed.
+
+Theorem event_property_clash_refuted :
+  exists cs m, in_quantifier (mk_min "event") = true /\ compile (mk_min "event") = Ok cs
+    /\ has_msg cs 0 m /\ m_name m = sp_name (mk_min "event") "Event"
+    /\ json_props cs m = [bs "metadata"; bs "event"; bs "event"].
+Proof.
+  eexists. eexists. split; [vm_compute; reflexivity|]. split; [vm_compute; reflexivity|].
+  split; [unfold has_msg; do 5 right; left; reflexivity|]. split; vm_compute; reflexivity.
+Qed.
+
+Theorem full_refuted : ~ C17_full_statement_def.
+Proof.
+  intros H. destruct (H (mk_min "page")) as [cs [Hc _]]; [vm_compute; reflexivity|].
+  destruct reserved_key_refuted as [_ [E _]]. rewrite E in Hc. discriminate.
+Qed.
+
+(* everything the statement promises about the OUTPUT holds whenever the compiler accepts; the
+   path clause for declarations in the quantifier; State/Event are objects when no key uses one
+   of their property names.  Missing for the full statement: acceptance itself
+   (in_quantifier e -> reserved_free e -> compile e succeeds), which is checked on every run by
+   the correspondence + oracle only. *)
+Theorem full_partial : forall e cs, compile e = Ok cs ->
+  C17_spec_core e cs
+  /\ (in_quantifier e = true -> spec_query_paths e cs)
+  /\ (in_quantifier e = true -> reserved_free e = true -> spec_objects e cs).
+Proof.
+  intros e cs H. split; [now apply spec_core_holds|].
+  destruct (compile_inv e cs H) as [_ [_ [Hl [fl [_ [-> _]]]]]]. split.
+  - intros Hq. now apply spec_query_paths_holds.
+  - intros Hq Hr. apply spec_objects_holds; [assumption|now apply keys_clear_holds].
+Qed.
+
+(* the sample of props/C17.v is in the quantifier, free of reserved names, and compiles *)
